@@ -64,6 +64,7 @@ func newMagic(kind int, v float64) ad.ConstScalar {
 
 // stepCase executes one instruction on the program's registers and records the case.
 func stepCase(p *prog, in Instr) Case {
+	in.ParJ = JF(in.Par)
 	ids := in.regsUsed()
 	sort.Ints(ids[1:])
 	pre := make([]RegSnap, len(ids))
